@@ -67,6 +67,7 @@ package httpgrpc
 //@   assert_call[C01,C07] writeSizePreface : size_prefix_first_negative_for_the_final_frame: arg0 == w && !called("io.Writer.Write") && len(lastresult("encoding.Codec.Marshal", 0)) <= 2147483647 && (end ==> arg1 == 0 - len(lastresult("encoding.Codec.Marshal", 0))) && (!end ==> arg1 == len(lastresult("encoding.Codec.Marshal", 0)))
 //@   assert_call[C01] io.Writer.Write : then_exactly_the_marshalled_bytes: arg0 == w && arg1 == lastresult("encoding.Codec.Marshal", 0) && calls(writeSizePreface) == 1 && lastresult(writeSizePreface) == nil
 //@   ensures[C01] one_payload_write_at_most: calls("io.Writer.Write") <= 1
+//@   ensures[C01,C05] a_written_frame_is_flushed_to_the_peer: result == nil && implements(w, "http.Flusher") ==> calls("http.Flusher.Flush") == 1
 //@   ensures[C01,C02] a_failed_prefix_or_payload_write_is_reported: (called(writeSizePreface) && lastresult(writeSizePreface) != nil ==> result == lastresult(writeSizePreface) && !called("io.Writer.Write")) && (called("io.Writer.Write") ==> result == lastresult("io.Writer.Write", 1))
 //@   ensures[C01,C07] success_wrote_prefix_and_payload: result == nil ==> calls(writeSizePreface) == 1 && calls("io.Writer.Write") == 1
 //@   modifies external
@@ -206,6 +207,8 @@ package httpgrpc
 //@   assert_call[C02] (*base64.Encoding).DecodeString : each_detail_header_with_the_raw_url_alphabet: arg0 == base64.RawURLEncoding && arg1 == detailHeaders[rangeindex]
 //@   assert_call[C02] status.FromProto : carries_code_message_and_all_decoded_details: arg0.Details == details && len(details) > 0 && arg0.Message == msg
 //@   ensures[C02] decoded_details_are_never_dropped: result != nil && !called("status.FromProto") ==> len(details) == 0
+//@   loop loop#1 invariant[C02] every_detail_header_so_far_was_decoded: calls("(*base64.Encoding).DecodeString") == rangeindex + 1
+//@   ensures[C02] every_detail_header_of_a_failed_reply_is_decoded: result != nil ==> calls("(*base64.Encoding).DecodeString") == len(old(reply.Header[grpcDetailsHeader]))
 //@   ensures[C14,C02] header_code_wins_over_http_status: old(xcode(reply)) != "" && parse_ok(old(xcode(reply)), 32) ==> ((result == nil) <==> (parse_val(old(xcode(reply))) == 0)) && (result != nil ==> status_code(result) == wrap_u32(parse_val(old(xcode(reply)))))
 //@   ensures[C14] without_usable_header_the_http_status_decides: (old(xcode(reply)) == "" || !parse_ok(old(xcode(reply)), 32)) ==> ((result == nil) <==> (lastresult(codeFromHttpStatus) == 0)) && (result != nil ==> status_code(result) == lastresult(codeFromHttpStatus))
 //@   assert_call[C14] codeFromHttpStatus : of_the_replys_status_code: arg0 == reply.StatusCode
@@ -572,3 +575,7 @@ package httpgrpc
 //@ closure ErrorRenderer.return
 //@   ensures[C14] h.errFunc == errFunc
 //@   modifies h.errFunc
+
+//@ func (strAddr).Network
+//@   ensures[C13] a_known_remote_address_is_tcp: (a != "" ==> result == "tcp") && (a == "" ==> result == "")
+//@   modifies nothing
